@@ -651,14 +651,24 @@ func WithWatchdog(d time.Duration, what string, f func() Result) Result {
 	}
 	done := make(chan Result, 1)
 	go func() { done <- f() }()
-	select {
-	case r := <-done:
-		return r
-	case <-time.After(d):
-		hungOnce.mu.Lock()
-		hungOnce.hung = true
-		hungOnce.mu.Unlock()
-		return Fail("%s did not return within %v (hang / unbounded work)", what, d)
+	// the time-out is counted in experienced time (see Experienced): a process that was stopped or starved for a
+	// minute has not seen its code hang for a minute
+	start := Experienced()
+	tick := time.NewTicker(50 * time.Millisecond)
+	defer tick.Stop()
+	for {
+		select {
+		case r := <-done:
+			return r
+		case <-tick.C:
+			if Experienced()-start <= d {
+				continue
+			}
+			hungOnce.mu.Lock()
+			hungOnce.hung = true
+			hungOnce.mu.Unlock()
+			return Fail("%s did not return within %v (hang / unbounded work)", what, d)
+		}
 	}
 }
 
